@@ -234,3 +234,19 @@ CHECKS["C15"] = {
     "level_text": "The executable meaning of 'removes exactly that clause and nothing else' is 'equals the statement built from the same history without that clause's calls'; of take 'the taken value equals the value before, and continuing on it ends where the unbranched history ends, and the source equals a new statement'; of clone 'later changes to either never show in the other'. Each is checked at every position of every generated history.",
     "level_note": "Trusted: the per-call clause labels in c15.rs (which calls belong to which clearable clause).",
 }
+
+CHECKS["C13"] = {
+    "parts": BASE,
+    "level": "exploration",
+    "technique": "runtime monitor: generated SQLite schema statements are executed on the real engine; the engine's catalogue (pragma_table_xinfo, index_list, index_xinfo, foreign_key_list, sqlite_master) and behavioural probes (valid row accepted, NULL / CHECK-violating row rejected, defaults read back, typeof() of stored probes) are compared with the declared catalogue after every statement of a history",
+    "rule": "(a) every SQLite-supported column type (34 parameterisations) x every ordered pair of column specifications from {NOT NULL, NULL, DEFAULT int/text/NULL/CURRENT_TIMESTAMP, UNIQUE, PRIMARY KEY, CHECK, COMMENT} plus the AUTOINCREMENT forms, as single-column tables; (b) random histories: 1-2 tables of 1-6 columns with random specification orders, table-level (composite) primary keys, named UNIQUE constraints, foreign keys with every action pair, table CHECKs, generated columns, followed by up to 5 of ADD COLUMN / RENAME COLUMN / DROP COLUMN / RENAME TO / CREATE [UNIQUE] INDEX [IF NOT EXISTS] with ASC/DESC and partial predicate / DROP INDEX / DROP TABLE [IF EXISTS]; non-trivial = every executed history; distinct = distinct statement texts",
+    "assumptions": [
+        "intended affinity per abstract type is the table in ddl.rs (integer family -> INTEGER, float/double/decimal/money -> REAL, char/string/text/date-time/json/uuid/enum -> TEXT, binary/varbinary/blob -> BLOB, boolean -> NUMERIC), checked against SQLite's five type-name rules and, for unconstrained single-column tables, by typeof() of stored probes (INTEGER and NUMERIC store alike)",
+        "SQLite semantics encoded in the oracle: an `integer` PRIMARY KEY column is a rowid alias (NULL/DEFAULT replaced by a fresh rowid); one automatic index per distinct UNIQUE column list and none for a list equal to the primary key; ADD COLUMN cannot add PRIMARY KEY/UNIQUE columns and needs a non-NULL literal default for NOT NULL",
+        "foreign keys are compared through the catalogue (columns, target, actions); enforcement is not probed",
+    ],
+    "design_ref": "DESIGN.md §5 C13, Appendix E",
+    "level_text": "Acceptance and the resulting catalogue can only be decided by executing and introspecting: after every statement the engine's own description of every table, index and foreign key must equal the declaration, and constraint behaviour must match on probe rows.",
+    "level_note": "Trusted: SQLite 3.40.1 and the declared-catalogue model in c13.rs.",
+    "min_nontrivial": 300,
+}
